@@ -63,6 +63,7 @@ theorem C07_registry_grows (r : Router) (c : Call) (name : Bytes) (h : r.registr
       · split
         · exact h
         · simp only [Router.deleteOk]; split <;> exact h
+  | clone => exact h
 
 /-- a successful insert stores only constraint names that are registered -/
 theorem C07_constraints_registered (r r' : Router) (t : Bytes) (d : Nat) (h : r.insert t d = .ok r') :
